@@ -801,9 +801,19 @@ def c13_i(ctx):
             continue
         n += 1
         from .base import unweak
-        gs = [unweak(t) for (t, pol, _) in ctx.guards(npar, c)]
-        ok = any(contains(t, '_.shape') or contains(t, 'np.shape(_)') or contains(t, 'len(_)')
-                 for t in gs)
+        single = ('_.shape[0] == 1', 'len(_) == 1', 'np.shape(_)[0] == 1')
+        several = ('_.shape[0] != 1', '_.shape[0] > 1', 'len(_) != 1', 'len(_) > 1')
+        ok = False
+        for (t, pol, _) in ctx.guards(npar, c):
+            u = unweak(t)
+            parts = u[2] if u[0] == 'bool' and u[1] == 'and' else (u,)
+            # squeezed only where "exactly one component row" is excluded
+            if (not pol) and any(match_any(p_, single) is not None for p_ in parts) and all(
+                    match_any(p_, single + ('_.ndim == 2', '_.ndim >= 2', 'np.ndim(_) == 2'))
+                    is not None for p_ in parts):
+                ok = True
+            if pol and u[0] != 'bool' and match_any(u, several) is not None:
+                ok = True
         ctx.check(ok, npar, 'squeeze of the means is conditional on their shape',
                   'a (1, k) array keeps its component axis',
                   '`{}` squeezes the array of means whatever its shape: a single k-dimensional '
